@@ -1,4 +1,5 @@
 import QibProofs.Lemmas.VqeCluster
+import QibProofs.Lemmas.VqePauli
 /-!
 C20 — VQE energies are true expectation values of a unitary ansatz.
 
@@ -40,20 +41,11 @@ is `ψ† P ψ` of the embedded state and matrix; it also equals the executable 
 theorem C20_expect_model (ψ : Array GQ) (P : Mat) (v : GQ) (h : expect ψ P = .ok v) :
     v.toC = star (vecC ψ.size ψ) ⬝ᵥ (P.toM ψ.size) *ᵥ vecC ψ.size ψ ∧ v = expectSpec ψ P ∧
     P.n = ψ.size ∧ P.m = ψ.size := by
-  unfold expect at h
-  split at h
-  · cases h
-  · split at h
-    · cases h
-    · rename_i h1 h2
-      have h1 := not_not.mp h1
-      have h2 := not_not.mp h2
-      simp only [Except.ok.injEq] at h
-      subst h
-      have e1 := expectRaw_toC ψ.size ψ P rfl h2
-      refine ⟨e1, ?_, h1.symm, h2⟩
-      apply GQ.toC_injective
-      rw [e1, expectSpec_toC ψ.size ψ P rfl]
+  obtain ⟨h1, h2, rfl⟩ := expect_ok ψ P v h
+  have e1 := expectRaw_toC ψ.size ψ P rfl h2
+  refine ⟨e1, ?_, h1, h2⟩
+  apply GQ.toC_injective
+  rw [e1, expectSpec_toC ψ.size ψ P rfl]
 
 /-- the model refuses exactly what NumPy refuses: a state whose length is not the matrix dimension -/
 theorem C20_expect_rejects (ψ : Array GQ) (P : Mat) :
@@ -86,6 +78,42 @@ theorem C20_expect_model_real (ψ : Array GQ) (P : Mat) (v : GQ) (h : expect ψ 
   have h1 := (C20_expect_model ψ P v h).1
   have h2 := ev_im_of_hermitian (vecC ψ.size ψ) hP
   rw [ev, ← h1, GQ.toC_im] at h2
+  exact_mod_cast h2
+
+/-! ### Pauli operators (the argument type of `measure_expectation_statevector`) -/
+
+/-- model: for a `PauliOperator` given as (string, weight) list on `n` sites, the executable result is `ψ†Pψ` where
+`P = Σ weight • (matrix of the string)` is the C09 denotation `PauliOp.mat` (bit-function indices; `bitsEquiv` is the
+flat index with site 0 most significant); the state must have length `2^n` -/
+theorem C20_expect_pauli_model (n : ℕ) (ψ : Array GQ) (op : Qib.Pauli.PauliOp Qib.Pauli.GQ)
+    (h : ∀ e ∈ op, e.1.HasLen n) (v : GQ) (hv : expectPauli ψ op = .ok v) :
+    ψ.size = 2 ^ n ∧
+    v.toC = ev (vecC (2 ^ n) ψ ∘ bitsEquiv n) (Qib.Pauli.PauliOp.mat Qib.Pauli.GQ.toC n op) := by
+  cases op with
+  | nil => cases hv
+  | cons e op =>
+    obtain ⟨P, w⟩ := e
+    have hn : P.z.length = n := (h (P, w) (List.mem_cons_self ..)).1
+    simp only [expectPauli, hn] at hv
+    obtain ⟨h1, h2, rfl⟩ := expect_ok ψ _ v hv
+    have hs : ψ.size = 2 ^ n := h1.symm
+    refine ⟨hs, ?_⟩
+    rw [expectRaw_toC (2 ^ n) ψ _ hs rfl, toM_pauliMat n _ h, ev_reindex]
+
+/-- the empty operator has no matrix (`as_matrix()` is the integer 0): the call fails, it does not return an energy -/
+theorem C20_expect_pauli_empty (ψ : Array GQ) : expectPauli ψ [] = .error "AttributeError" := rfl
+
+/-- model: if `PauliOperator.is_hermitian()` holds (every weighted string reports Hermitian) then the operator's
+matrix is Hermitian and the executable energy has imaginary part exactly `0 : ℚ` -/
+theorem C20_expect_pauli_real (n : ℕ) (ψ : Array GQ) (op : Qib.Pauli.PauliOp Qib.Pauli.GQ)
+    (h : ∀ e ∈ op, e.1.HasLen n) (hh : Qib.Pauli.PauliOp.isHermitian op = true) (v : GQ)
+    (hv : expectPauli ψ op = .ok v) :
+    (Qib.Pauli.PauliOp.mat Qib.Pauli.GQ.toC n op).IsHermitian ∧ v.im = 0 := by
+  have hH := op_hermitian n op hh
+  refine ⟨hH, ?_⟩
+  have h1 := (C20_expect_pauli_model n ψ op h v hv).2
+  have h2 := ev_im_of_hermitian (vecC (2 ^ n) ψ ∘ bitsEquiv n) hH
+  rw [← h1, GQ.toC_im] at h2
   exact_mod_cast h2
 
 /-! ### invariant under a global phase -/
